@@ -1,6 +1,7 @@
 import EdpVerif.Drv.Common
 import EdpVerif.Impl.PidAlloc
 import EdpVerif.Impl.RefCounter
+import EdpVerif.Impl.NodeIds
 /-! Driver requests of property C16 (pid allocator, reference counter).
 
 Result text of one `allocate()` call: `<id>.<serial>.<creation>` | `err` | `panic`; of one reference `<creation>:<w0>:<w1>:<w2>`.
@@ -237,9 +238,46 @@ def allDistinct (l : List Ref) : Bool :=
   | x :: rest => !rest.contains x && allDistinct rest
 
 end Refs
+
+/-! ### node-level histories (`Impl/Edp.Impl.NodeIds.lean`) -/
+
+def parseNodeOp (t : String) : Except String Edp.Impl.NodeIds.Op :=
+  if t == "r" then .ok .makeRef else if t == "p" then .ok .spawn else if t == "a" then .ok .allocate
+  else if t == "u" then .ok .unlink else if t == "S!" then .ok (.start none)
+  else if t.startsWith "S" then do pure (.start (some (← nat (t.drop 1).toString)))
+  else .error ("bad node op " ++ t)
+
+def nodeOutText : Edp.Impl.NodeIds.Out → String
+  | .pid r => "P" ++ resText r
+  | .ref r => "R" ++ refText r
+  | .unlinkId n => "U" ++ toString n
+  | .startOk => "ok"
+  | .refused => "refused"
+
+/-- the creation in force before each call of a history, computed directly from the history's text (independent of the
+model): 1 until the first `start`; the value EPMD gave if that first `start` got one; later `start`s change nothing -/
+def creationsInForce : Bool → Nat → List String → List Nat
+  | _, _, [] => []
+  | started, cur, t :: r =>
+    if t.startsWith "S" then
+      let cur' := if started || t == "S!" then cur else ((t.drop 1).toString.toNat?).getD cur
+      cur :: creationsInForce true cur' r
+    else cur :: creationsInForce started cur r
+
+def nodeCreationOf (o : String) : Option Nat :=
+  if o.startsWith "R" then ((o.drop 1).toString.splitOn ":").head?.bind String.toNat?
+  else if o.startsWith "P" then (((o.drop 1).toString.splitOn ".").getD 2 "").toNat?
+  else none
+
+def allDistinctStr : List String → Bool
+  | [] => true
+  | a :: r => !r.contains a && allDistinctStr r
+
+
 end C16
 
 open C16 Edp.Impl in
+
 def handleC16 : List String → Option String
   | ["c16seq", id0, ser0, cre, n] => some <| runE do
     let s : PidAlloc.Sh := ⟨← nat id0, ← nat ser0, ← nat cre, false⟩
@@ -300,6 +338,18 @@ def handleC16 : List String → Option String
     let c ← nat cre
     if !allDistinct rs then pure "FAIL duplicate-reference"
     else if !rs.all (fun r => r.creation == c) then pure "FAIL creation-never-in-force"
+    else pure "ok"
+  | ["c16node", ops] => some <| runE do
+    let ops ← (ops.splitOn ",").mapM parseNodeOp
+    pure (",".intercalate ((NodeIds.run NodeIds.NSt.new ops).1.map nodeOutText))
+  | ["c16nodecre", ops, outs] => some <| runE do
+    let os := outs.splitOn ","
+    let inf := creationsInForce false 1 (ops.splitOn ",")
+    if os.length != inf.length then pure "FAIL length" else
+    let bad := (os.zip inf).filter fun (o, c) => match nodeCreationOf o with | some g => g != c | none => false
+    let ids := os.filter fun o => o.startsWith "R" || (o.startsWith "P" && o != "Perr" && o != "Ppanic")
+    if !bad.isEmpty then pure s!"FAIL creation-not-in-force {bad.head!.1} want={bad.head!.2}"
+    else if !allDistinctStr ids then pure "FAIL duplicate-identifier"
     else pure "ok"
   | _ => none
 
